@@ -89,6 +89,48 @@ def spec_formulas(ctx):
     return {k: parse_spec(v, amap) for k, v in sp["formulas"].items()}
 
 
+def _is_valid_by_witnesses(ctx, c, fn, spec):
+    """is_valid written with locals or statements: the method is folded on a witness object for every combination of field values
+    that distinguishes the atoms of the specification (present / absent error, command, session, identity; command status 0, 1,
+    None; service status 0, 6, 4, None; a service inside / outside the partial-transfer set, None) and must give the specified
+    truth value each time.  True when it reported (ok, violation or undecided) - False when it could not even start."""
+    import itertools
+
+    from ..miniinterp import Obj, fold_method
+
+    mps = ctx.folder.module_value("pycomm3.cip.services", "MULTI_PACKET_SERVICES")
+    if not isinstance(mps, frozenset) or not mps:
+        return False
+    inside = sorted(mps)[0]
+    outside = next(bytes([x]) for x in range(1, 255) if bytes([x]) not in mps)
+    domain = {"_error": [None, "failed"], "command": [None, b"\x70\x00"], "command_status": [0, 1, None], "service_status": [0, 6, 4, None], "service": [inside, outside, None],
+              "session": [None, 5], "identity": [None, {"serial": 1}]}
+    fields = sorted({a[0] for a in atoms(spec)})
+    if any(f_ not in domain for f_ in fields):
+        return False
+    key = ckey(c.key + ".is_valid")
+    bad = None
+    n = 0
+    for combo in itertools.product(*[domain[f_] for f_ in fields]):
+        vals = dict(zip(fields, combo))
+        me = Obj(_ci=c, **{f_: (v if f_ in vals else None) for f_, v in {**{k: v[0] for k, v in domain.items()}, **vals}.items()})
+        kind, res = fold_method(ctx, me, "is_valid")
+        if kind == "unknown":
+            ctx.undecided(key, fn, f"is_valid neither reads as a formula nor folds on the witness {vals!r}: {res}")
+            return True
+        val = {a: (vals[a[0]] is None if a[1] == "is" else vals[a[0]] == a[2] if a[1] == "==" else vals[a[0]] in mps) for a in atoms(spec)}
+        want = evaluate(spec, val)
+        n += 1
+        if kind != "return" or bool(res) is not want:
+            bad = (vals, kind, res, want)
+            break
+    if bad is None:
+        ctx.ok(key, fn, f"is_valid evaluated on {n} field combinations equals the specification", spec=show(spec), witnesses=n)
+    else:
+        ctx.violation(key, fn, f"is_valid with {bad[0]!r} gives {bad[1]} {bad[2]!r}; the classification rule says {bad[3]}", spec=show(spec))
+    return True
+
+
 @rule(P, "D13.1", "T-TT", floor=6)
 def d13_1(ctx):
     """Every is_valid implementation equals its specification formula on all consistent valuations; __bool__ is is_valid."""
@@ -104,12 +146,15 @@ def d13_1(ctx):
         try:
             f, _, _ = method_formula(ctx, c, "is_valid")
         except NotBoolean as err:
-            ctx.violation(ckey(c.key + ".is_valid"), fn, f"is_valid is not a pure boolean function of the status fields ({err}); cannot equal the specified rule")
+            if not (key in specs and _is_valid_by_witnesses(ctx, c, fn, specs[key])):
+                ctx.violation(ckey(c.key + ".is_valid"), fn, f"is_valid is not a pure boolean function of the status fields ({err}); cannot equal the specified rule")
             continue
         if key in specs:
             eq, cex = equivalent(f, specs[key])
             if eq:
                 ctx.ok(ckey(c.key + ".is_valid"), fn, "truth table equals the specification", formula=show(f), spec=show(specs[key]), atoms=len(atoms(f)))
+            elif _is_valid_by_witnesses(ctx, c, fn, specs[key]):
+                pass  # (the formula read off the body is not the method's: locals, statements - decided by evaluating the method)
             else:
                 ctx.violation(ckey(c.key + ".is_valid"), fn, "truth table differs from the specified classification rule", formula=show(f), spec=show(specs[key]), counterexample=cex,
                               code_says=evaluate(f, _val(f, specs[key], cex)), spec_says=evaluate(specs[key], _val(f, specs[key], cex)))
@@ -262,17 +307,11 @@ def d13_4(ctx):
               extra=sorted(x.hex() for x in mps - want), missing=sorted(x.hex() for x in want - mps))
     vals = {v for v in members.values() if isinstance(v, bytes)}
     ctx.check(mps <= vals, "pycomm3.cip.services:MULTI_PACKET_SERVICES#members", node, "every element is a Services member", "set contains codes that are not Services members")
-    fr = ctx.model.own_method(svc, "from_reply")
-    k = None
-    if fr is not None:
-        for n in walk(fr.node):
-            if isinstance(n, ast.BinOp) and isinstance(n.op, ast.Sub):
-                k = ctx.folder.eval(n.right, svc.module, cls=svc)
-            if isinstance(n, ast.BinOp) and isinstance(n.op, (ast.BitAnd, ast.BitXor)):
-                kk = ctx.folder.eval(n.right, svc.module, cls=svc)
-                k = {0x7F: 128}.get(kk, kk) if isinstance(n.op, ast.BitAnd) else kk
-    ctx.check(k == sp["reply_service_bit"], ckey(svc.key + ".from_reply"), fr.node if fr else svc.node, "reply service = request service | 0x80",
-              f"from_reply removes {k!r} from the reply service code; the reply bit is 0x80", got=k)
+    # reply service = request service | 0x80: decided by folding Services.from_reply on the reply code of every member (D19.7) -
+    # an earlier form read the constant out of the subtraction / mask inside the method body
+    from .C19 import d19_7
+
+    d19_7(ctx)
 
 
 @rule(P, "D13.5", "T-ALLPATHS", floor=4)
@@ -507,3 +546,7 @@ def d13_8(ctx):
 from .driver import d4_10 as _d4_10  # noqa: E402
 
 rule(P, "D13.11", "T-WITNESS", floor=4)(_d4_10)
+
+# the Forward Open fallback (Large -> standard) and every failed open read the refusal's error text: a foreign exception out of
+# the status reader leaves the open half-done - the same witnesses are obligations of the connection lifecycle (C10)
+rule("C10", "D10.16", "T-WITNESS", floor=6)(d13_8)
